@@ -358,8 +358,7 @@ theorem stopOK_anti (stop : Option Key) (incE : Bool) (k k' : Key) (h : k < k') 
 
 theorem scanLoop_filter (start stop : Option Key) (incS incE : Bool) : ∀ (L : List Entry) (started : Bool),
     L.Pairwise (fun a b => a.1 < b.1) → (started = true → ∀ e ∈ L, startOK start incS e.1 = true) →
-    scanLoop start stop incS incE started L =
-      (L.filter (fun e => inRange start stop incS incE e.1)).flatMap (·.2) := by
+    scanLoopE start stop incS incE started L = L.filter (fun e => inRange start stop incS incE e.1) := by
   intro L
   induction L with
   | nil => intro _ _ _; rfl
@@ -367,7 +366,7 @@ theorem scanLoop_filter (start stop : Option Key) (incS incE : Bool) : ∀ (L : 
     obtain ⟨k, rs⟩ := a
     intro started hs hst
     rw [List.pairwise_cons] at hs
-    simp only [scanLoop, stop_test, start_test, List.filter_cons, inRange_eq]
+    simp only [scanLoopE, stop_test, start_test, List.filter_cons, inRange_eq]
     cases hstop : stopOK stop incE k with
     | false =>
       simp only [Bool.not_false, if_true, Bool.and_false]
@@ -389,17 +388,18 @@ theorem scanLoop_filter (start stop : Option Key) (incS incE : Bool) : ∀ (L : 
           exact ih false hs.2 (by simp)
       | true =>
         have hrec := ih true hs.2 (fun _ e he => startOK_mono start incS k e.1 (hs.1 e he) hstart)
-        simp only [Bool.not_true, Bool.and_false, Bool.false_eq_true, if_false, if_true, List.flatMap_cons]
+        simp only [Bool.not_true, Bool.and_false, Bool.false_eq_true, if_false, if_true]
         rw [hrec]
         simp [inRange_eq]
 
-/-- **range scan answers as the ordered multimap** (every start/end, inclusive or exclusive) -/
-theorem C17_range_scan (d : Nat) (t : BTree) (start stop : Option Key) (incS incE : Bool) (hw : t.WF d) :
-    rangeScan t start stop incS incE = .ok (amRange t.toAssoc start stop incS incE) := by
+/-- `range_scan_entries` returns exactly the entries whose key is in the range, in key order -/
+theorem C17_range_scan_entries (d : Nat) (t : BTree) (start stop : Option Key) (incS incE : Bool) (hw : t.WF d) :
+    rangeScanEntries t start stop incS incE =
+      .ok (t.toAssoc.filter (fun e => inRange start stop incS incE e.1)) := by
   obtain ⟨L, A, h1, h2, h3⟩ := chainFrom_correct d t.h none none t.root start hw (by simp)
   have hsorted := flat_sorted d t.h none none t.root hw
   rw [h2, List.pairwise_append] at hsorted
-  simp only [rangeScan, h1, Except.map, amRange, BTree.toAssoc, h2, List.filter_append]
+  simp only [rangeScanEntries, h1, Except.map, BTree.toAssoc, h2, List.filter_append]
   have hA : A.filter (fun e => inRange start stop incS incE e.1) = [] := by
     rw [List.filter_eq_nil_iff]
     intro e he
@@ -445,6 +445,11 @@ theorem C17_range_scan (d : Nat) (t : BTree) (start stop : Option Key) (incS inc
   cases start with
   | none => rfl
   | some s => simp at hst
+
+/-- **range scan answers as the ordered multimap** (every start/end, inclusive or exclusive) -/
+theorem C17_range_scan (d : Nat) (t : BTree) (start stop : Option Key) (incS incE : Bool) (hw : t.WF d) :
+    rangeScan t start stop incS incE = .ok (amRange t.toAssoc start stop incS incE) := by
+  simp only [rangeScan, C17_range_scan_entries d t start stop incS incE hw, Except.map, amRange]
 
 /-! ## delete / delete_specific -/
 
